@@ -348,7 +348,7 @@ get_gray_rgb_row(j_compress_ptr cinfo, cjpeg_source_ptr sinfo)
     ERREXIT(cinfo, JERR_INPUT_EOF);
   ptr = source->pub._buffer[0];
   bufferptr = source->iobuffer;
-  if (maxval == (1U << cinfo->data_precision) - 1U) {
+  if (maxval == (1U << cinfo->data_precision) - 1U && maxval == 255) {
     if (aindex >= 0)
       GRAY_RGB_READ_LOOP(*bufferptr++, ptr[aindex] = (_JSAMPLE)maxval;)
     else
@@ -380,7 +380,7 @@ get_gray_cmyk_row(j_compress_ptr cinfo, cjpeg_source_ptr sinfo)
     ERREXIT(cinfo, JERR_INPUT_EOF);
   ptr = source->pub._buffer[0];
   bufferptr = source->iobuffer;
-  if (maxval == (1U << cinfo->data_precision) - 1U) {
+  if (maxval == (1U << cinfo->data_precision) - 1U && maxval == 255) {
     for (col = cinfo->image_width; col > 0; col--) {
       _JSAMPLE gray = *bufferptr++;
       rgb_to_cmyk(maxval, gray, gray, gray, ptr, ptr + 1, ptr + 2, ptr + 3);
@@ -417,7 +417,7 @@ get_rgb_row(j_compress_ptr cinfo, cjpeg_source_ptr sinfo)
     ERREXIT(cinfo, JERR_INPUT_EOF);
   ptr = source->pub._buffer[0];
   bufferptr = source->iobuffer;
-  if (maxval == (1U << cinfo->data_precision) - 1U) {
+  if (maxval == (1U << cinfo->data_precision) - 1U && maxval == 255) {
     if (aindex >= 0)
       RGB_READ_LOOP(*bufferptr++, ptr[aindex] = (_JSAMPLE)maxval;)
     else
@@ -449,7 +449,7 @@ get_rgb_cmyk_row(j_compress_ptr cinfo, cjpeg_source_ptr sinfo)
     ERREXIT(cinfo, JERR_INPUT_EOF);
   ptr = source->pub._buffer[0];
   bufferptr = source->iobuffer;
-  if (maxval == (1U << cinfo->data_precision) - 1U) {
+  if (maxval == (1U << cinfo->data_precision) - 1U && maxval == 255) {
     for (col = cinfo->image_width; col > 0; col--) {
       _JSAMPLE r = *bufferptr++;
       _JSAMPLE g = *bufferptr++;
@@ -752,7 +752,7 @@ start_input_ppm(j_compress_ptr cinfo, cjpeg_source_ptr sinfo)
       else
         ERREXIT(cinfo, JERR_BAD_IN_COLORSPACE);
     } else if (maxval <= _MAXJSAMPLE && sizeof(_JSAMPLE) == sizeof(U_CHAR) &&
-               maxval == ((1U << cinfo->data_precision) - 1U) &&
+               maxval == ((1U << cinfo->data_precision) - 1U) && maxval == 255 &&
                cinfo->in_color_space == JCS_GRAYSCALE) {
       source->pub.get_pixel_rows = get_raw_row;
       use_raw_buffer = TRUE;
@@ -781,7 +781,7 @@ start_input_ppm(j_compress_ptr cinfo, cjpeg_source_ptr sinfo)
       else
         ERREXIT(cinfo, JERR_BAD_IN_COLORSPACE);
     } else if (maxval <= _MAXJSAMPLE && sizeof(_JSAMPLE) == sizeof(U_CHAR) &&
-               maxval == ((1U << cinfo->data_precision) - 1U) &&
+               maxval == ((1U << cinfo->data_precision) - 1U) && maxval == 255 &&
 #if RGB_RED == 0 && RGB_GREEN == 1 && RGB_BLUE == 2 && RGB_PIXELSIZE == 3
                (cinfo->in_color_space == JCS_EXT_RGB ||
                 cinfo->in_color_space == JCS_RGB)) {
